@@ -202,11 +202,18 @@ class LayerRuleMatcher(RuleMatcher):
         super().__init__(module_requirement, behavior_requirement)
         self._layer_mapping = layer_mapping
 
+    def _updated_module_requirements(self, evaluable: EvaluableArchitecture) -> None:
+        super()._updated_module_requirements(evaluable)
+        self._evaluable_modules = evaluable.modules
+
     def _get_rule_violation_detector(
         self, module_name_conversion_mapping: dict[str, list[Module]]
     ) -> RuleViolationBaseDetector:
         self._updated_layer_mapping = self._update_layer_mapping(
-            self._layer_mapping, module_name_conversion_mapping
+            self._layer_mapping,
+            self._add_regexes_of_layers_not_used_in_rule(
+                module_name_conversion_mapping
+            ),
         )
         return LayerRuleViolationDetector(
             self._updated_module_requirement,
@@ -221,6 +228,30 @@ class LayerRuleMatcher(RuleMatcher):
             self._updated_module_requirement.rule_specified_with_importer_as_rule_subject,
             self._updated_layer_mapping,
         )
+
+    def _add_regexes_of_layers_not_used_in_rule(
+        self, module_name_conversion_mapping: dict[str, list[Module]]
+    ) -> dict[str, list[Module]]:
+        """Only regexes of layers that are rule subject or object have been converted to modules so far. Layers that
+        the rule does not mention can be defined via a regex as well. Their modules are needed to decide which layer a
+        module belongs to."""
+        result = dict(module_name_conversion_mapping)
+
+        for layer in self._layer_mapping.all_layers:
+            for module_filter in self._layer_mapping.get_module_filters(layer):
+                if (
+                    module_filter.identifier_is_regex
+                    and module_filter.identifier not in result
+                ):
+                    result[module_filter.identifier] = [
+                        Module(identifier=module_name)
+                        for module_name in self._evaluable_modules
+                        if ModuleNameConverter._name_matches_pattern(
+                            module_filter.identifier, module_name
+                        )
+                    ]
+
+        return result
 
     @classmethod
     def _update_layer_mapping(
